@@ -377,3 +377,65 @@ impl Grapheme {""")
     b.trusted += ['Vec::splice with a one-element iterator replaces the range by that element; the ranges of the unverified detection stage have start <= end and a non-empty unit (preconditions)',
                   'the recursion into nested units (third loop: iter_mut + closure) is outside the slice and NOT decided']
     return b
+
+def build_escaper(repo, spec_dir, canary=False):
+    """C01/C07: Grapheme::escape_regexp_symbols -- the list of escaped metacharacters, one escaping round, the control-character chain, the lone backslash"""
+    b = _start('escaper', repo, canary)
+    b.emit('pub mod rm {\nuse super::*;'); b.emit(open(spec_dir + '/replace_model.rs').read()); b.emit('}\nuse rm::*;')
+    gr = b.src('grapheme.rs')
+    m = re.search(r'const CHARS_TO_ESCAPE: \[&str; (\d+)\] = \[(.*?)\];', gr, re.S)
+    if not m: raise X.LostAnchor('grapheme.rs::CHARS_TO_ESCAPE')
+    items = re.findall(r'"((?:[^"\\]|\\.)*)"', m.group(2))
+    b.log.add('R7', 'grapheme.rs::CHARS_TO_ESCAPE', 'const array of %d string literals' % len(items), 'spec sequence of the same literals')
+    b.emit('pub open spec fn chars_to_escape() -> Seq<Seq<char>> { seq![%s] }' % ', '.join('"%s"@' % x for x in items))
+    # metacharacters of the regex crate outside classes that are not handled elsewhere (# and whitespace: verbose rewriting; & and ~: only inside classes)
+    core = ['(', ')', '[', ']', '{', '}', '+', '*', '.', '?', '|', '^', '$']
+    reveals = ' '.join('reveal_strlit("%s");' % x for x in items)
+    idx = {x: i for i, x in enumerate(items)}
+    def lit(c): return "'\\\\'" if c == '\\' else "'%s'" % c
+    cases = ' '.join('if c == %s { %s }' % (lit(c), ('assert(chars_to_escape()[%d] =~= seq![c]);' % idx[c]) if c in idx else 'assert(false);') for c in core)
+    b.emit("pub open spec fn core_meta(c: char) -> bool { %s }" % ' || '.join('c == %s' % lit(c) for c in core))
+    b.lemma('escaper.every_metacharacter_is_listed', ['C01', 'C07'], '''pub proof fn lemma_meta_listed()
+    ensures forall|c: char| core_meta(c) ==> chars_to_escape().contains(seq![c]),
+            forall|i: int| 0 <= i < chars_to_escape().len() ==> (#[trigger] chars_to_escape()[i]).len() == 1 && chars_to_escape()[i][0] != '\\\\'
+{
+    %s
+    assert forall|c: char| core_meta(c) implies chars_to_escape().contains(seq![c]) by { %s }
+}''' % (reveals, cases))
+    b.emit("pub open spec fn round_map(p: char) -> spec_fn(char) -> Seq<char> { |c: char| if c == p { seq!['\\\\', c] } else { seq![c] } }")
+    b.emit('''impl<'x, 'y> VxPattern for &'x &'y str { open spec fn matches(&self, c: char) -> bool { self@ == seq![c] } }
+// a &str is shown as its text (format! hole)
+pub trait VxShow { spec fn shown(&self) -> Seq<char>; fn vx_show(&self) -> (r: String) ensures r@ == self.shown(); }
+impl<'x> VxShow for &'x str { open spec fn shown(&self) -> Seq<char> { self@ } #[verifier::external_body] fn vx_show(&self) -> (r: String) { unimplemented!() } }
+impl<'x, T: VxShow> VxShow for &'x T { open spec fn shown(&self) -> Seq<char> { (**self).shown() } #[verifier::external_body] fn vx_show(&self) -> (r: String) { unimplemented!() } }
+#[verifier::external_body] pub fn vx_concat2(a: String, b: String) -> (r: String) ensures r@ == a@ + b@ { unimplemented!() }
+#[verifier::external_body] pub fn vx_lit(s: &str) -> (r: String) ensures r@ == s@ { unimplemented!() }''')
+    ef, _, _ = X.fn(gr, 'escape_regexp_symbols')
+    from vx import dialect as D
+    # one escaping round: the assignment inside `for char_to_escape in CHARS_TO_ESCAPE.iter()`
+    k = ef.find('for char_to_escape in CHARS_TO_ESCAPE.iter()')
+    if k < 0: raise X.LostAnchor('grapheme.rs::escape_regexp_symbols inner loop')
+    from vx import rustlex as L
+    bo = L.body_open(ef, k); inner = ef[bo + 1:L.match_close(ef, bo)].strip()
+    def pre(t, log, w):
+        t = D.expand_format_macros(t, log, w)
+        return re.sub(r'\.replace\(', '.vx_replace(', t)
+    b.slice_fn('escape_round', 'pub fn escape_round(character0: String, char_to_escape: &&str) -> (character: String)', '    let mut character = character0;\n    ' + inner + '\n    character',
+               'grapheme.rs::escape_regexp_symbols body of `for char_to_escape in CHARS_TO_ESCAPE.iter()`', props=['C07'], pre=pre,
+               requires=['char_to_escape@.len() == 1'],
+               clauses=[Clause('escaper.round_prefixes_backslash', "character@ == fm(character0@, round_map(char_to_escape@[0]))", ['C01', 'C07'])],
+               epilogue_before_tail='''    proof { reveal_strlit("\\\\"); let p = char_to_escape@[0]; assert(char_to_escape@ =~= seq![p]);
+        let f = subst_fn(char_to_escape, "\\\\"@ + char_to_escape@);
+        assert forall|c: char| #[trigger] f(c) == round_map(p)(c) by { if c == p { assert("\\\\"@ + char_to_escape@ =~= seq!['\\\\', c]); } }
+        lemma_fm_ext(character0@, f, round_map(p)); }''')
+    # the control-character chain
+    cm = re.search(r'character = character\s*\.replace\(\'\\n\'.*?;', ef, re.S)
+    if not cm: raise X.LostAnchor('grapheme.rs::escape_regexp_symbols control-character chain')
+    b.slice_fn('escape_controls', 'pub fn escape_controls(character0: String) -> (character: String)', '    let mut character = character0;\n    ' + cm.group(0) + '\n    character',
+               'grapheme.rs::escape_regexp_symbols statement `character = character.replace(\'\\n\', ..)...`', props=['C07'], pre=pre,
+               clauses=[Clause('escaper.controls_single', "character0@.len() == 1 ==> character@ == (if character0@[0] == '\\n' { \"\\\\n\"@ } else if character0@[0] == '\\r' { \"\\\\r\"@ } else if character0@[0] == '\\t' { \"\\\\t\"@ } else { character0@ })", ['C01', 'C07'])],
+               epilogue_before_tail='    proof { reveal_with_fuel(fm, 6); reveal_strlit("\\\\n"); reveal_strlit("\\\\r"); reveal_strlit("\\\\t"); if character0@.len() == 1 { assert(character0@ =~= seq![character0@[0]]); } }')
+    b.emit('} // verus!\nfn main() {}')
+    b.trusted += ['replace model (String::replace with a one-character &str pattern replaces every occurrence); that the 14 rounds and the control chain do not interfere (no replacement text contains a later pattern except the backslash, which is not in the list) is argued in DESIGN.md, not proved',
+                  'format!("{}{}", "\\\\", x) concatenates (formatting model)']
+    return b
